@@ -15,6 +15,12 @@ for nb, nc, span, tiers in ((2, 1, 2, ("quick", "thorough")), (3, 1, 3, ("thorou
     OBLIGATIONS.append(dict(name="C17.b limitCertSize: %d bridges, %d claims over %d blocks: fits or single block; maximal; first block kept; events = kept blocks" % (nb, nc, span + 1),
                             harness=F + "ZZVerif_C17_LimitCertSize", params={"NB": nb, "NC": nc, "SPAN": span}, tiers=tiers, reach=["cut"], time_limit_s=3000,
                             bounds="all size limits (uint32), both certificate types, event block numbers arbitrary (ordered), metadata lengths 1000*(i+1) / 700*(i+1) bytes"))
+for bm, cm, span, tiers in ((0b0000010010, 0b1010000100, 9, ("quick", "thorough")), (0b00101, 0b11010, 4, ("quick", "thorough")),
+                            (0b100000000001, 0b011111111110, 11, ("thorough",)), (0b1111, 0b0000, 3, ("thorough",)), (0b000011, 0b111100, 5, ("thorough",))):
+    OBLIGATIONS.append(dict(name="C17.b limitCertSize, fixed layout over blocks 1..%d (bridges in %s, claims in %s), every size limit: fits or single block; maximal; first block kept; events = kept blocks"
+                                 % (span + 1, [i + 1 for i in range(span + 1) if bm >> i & 1], [i + 1 for i in range(span + 1) if cm >> i & 1]),
+                            harness=F + "ZZVerif_C17_LimitCertSize", params={"NB": 0, "NC": 0, "SPAN": span, "BMASK": bm, "CMASK": cm}, tiers=tiers, reach=["cut"], time_limit_s=1500,
+                            bounds="all size limits (uint32), both certificate types; metadata lengths 1000*(i+1) / 700*(i+1) bytes"))
 for nb, nc, span, tiers in ((2, 1, 2, ("quick", "thorough")), (3, 2, 4, ("thorough",))):
     OBLIGATIONS.append(dict(name="C17.c last-L2-block limiter: %d bridges, %d claims over %d blocks: ends at min(ToBlock, max) or refuses in the documented cases; retry and non-retry" % (nb, nc, span + 1),
                             harness=F + "ZZVerif_C17_MaxL2Block", params={"NB": nb, "NC": nc, "SPAN": span}, tiers=tiers, reach=["cut"], time_limit_s=3000,
